@@ -158,7 +158,7 @@ func (c *ctx) partB(fams []*family, kits map[string]*depKit) bStats {
 				// main grid: trusted set, heights above the tracked one, every next set, every signature pattern
 				for _, dh := range []int64{1, 5} {
 					for _, nx := range setNames {
-						for _, sg := range c.sigPatterns(nT) {
+						for _, sg := range c.sigPatterns(nT, false) {
 							out = append(out, name(event{Kind: "sync", Hdrs: []relHdr{{DH: dh, Ver: ver, Vals: T, Hdr: T, Next: nx, Sigs: sg}}}))
 						}
 					}
@@ -301,6 +301,9 @@ func (c *ctx) partB(fams []*family, kits map[string]*depKit) bStats {
 			}
 			c.checkAdvance(f, "B", before, after, sps, hashes, replay)
 			adv := !sameTracked(before, after)
+			if adv && len(s.path) == 1 {
+				r.Sample(replay())
+			}
 			_, why := f.refOK(sps[len(sps)-1], before, true)
 			r.Case(fmt.Sprintf("B/%s/%s/n=%d/%s/adv=%v", f.name, e.Kind, len(sps), why, adv))
 			if sps[0].ChainID != tmChainID && adv {
